@@ -4,6 +4,7 @@ the implementation's observation (canonicalised), and evaluates each property's 
 directly on the observation.
 -/
 import Driver.MergeDecode
+import Driver.Builder
 import NriModel.Ledger
 import NriModel.Overlay
 import NriModel.UpdateWalk
@@ -107,6 +108,8 @@ structure Judged where
   guard : Option String
   modelOk : Bool
   cover : List String
+  /-- builder stream (plugins given programs of pkg/api helper calls): Driver/Builder.lean -/
+  binfo : Option Drv.Builder.Info := none
 
 def firstDiff (label : String) (sh : α → String) (xs ys : List α) [BEq α] : Option String :=
   if xs.length != ys.length then some s!"{label}: model has {xs.length}, implementation {ys.length}"
@@ -136,13 +139,18 @@ def judgeCommon (j : Json) : Except String Judged := do
     | "create" => initCreate inp.container
     | "update" => initUpdate inp.container.id (inp.resources.getD {})
     | _ => initStop
-  let chain : List (Plugin × Response) := inp.plugins.map fun p => (p.name, p.rsp)
+  -- builder stream: the responses are what the plugins' programs built with the real helpers
+  -- (compared with the model's `runA`/`runU` in `Drv.Builder.prepare`); otherwise as given
+  let binfo ← Drv.Builder.prepare inp.kind inJ (← getObj j "obs") inp.plugins
+  let chain : List (Plugin × Response) := match binfo with
+    | some b => b.plugs.map fun p => (p.name, p.sent)
+    | none => inp.plugins.map fun p => (p.name, p.rsp)
   let chainO : List (Plugin × Option Response) := chain.map fun (n, r) => (n, some r)
   let res := run Quirks.fixed st0 chainO
   let along := viewsAlong Quirks.fixed st0 chainO
   -- error class
   let eAgree := errKind res == obs.err.kind
-  let mut diffs : List String := []
+  let mut diffs : List String := match binfo with | some b => b.diffs | none => []
   if !eAgree then diffs := diffs ++ [s!"error: model {showErr res}, implementation {obs.err.kind} {U obs.err.subject} {U obs.err.p}/{U obs.err.q}"]
   -- who was invoked
   let mInvoked := (chain.take along.length).map (·.1)
@@ -163,7 +171,10 @@ def judgeCommon (j : Json) : Except String Judged := do
     if obs.err.kind == "none" then
       if let some d := firstDiff "updates" (shO shUpdate) ((replyUpdates st).map (·.map canonUpdate)) (obs.updates.map (·.map canonUpdate)) then diffs := diffs ++ [d]
   | .error _ => pure ()
-  let guard := caseGuard kind inp.container chain
+  -- guards are read off the programs (the model's messages), not off what broken helpers built
+  let guard := caseGuard kind inp.container (match binfo with
+    | some b => b.plugs.map fun p => (p.name, p.model)
+    | none => chain)
   -- coverage tags
   let setItems := chain.flatMap fun (_, r) => (Ledger.containersOf kind chain).flatMap fun c => Ledger.setsOn false kind r c
   let cover := [s!"kind:{inp.kind}", s!"stream:{inp.stream}", s!"err:{obs.err.kind}",
@@ -172,8 +183,9 @@ def judgeCommon (j : Json) : Except String Judged := do
     ++ (if chain.any (fun (_, r) => r.updates.any (·.ignoreFailure)) then ["ignore-failure"] else [])
     ++ (if chain.any (fun (_, r) => (Ledger.containersOf kind chain).any fun c => !(Ledger.removesOn kind r c).isEmpty) then ["removal"] else [])
     ++ (match guard with | some g => [s!"guard:{g}"] | none => [])
+    ++ (match binfo with | some b => b.cover | none => [])
   pure { agree := diffs.isEmpty, whyAgree := "; ".intercalate diffs, kind, chain, inp, obs, guard,
-         modelOk := errKind res == "none", cover }
+         modelOk := errKind res == "none", cover, binfo }
 
 /-! ### property predicates, each evaluated on the implementation's observation -/
 
@@ -334,7 +346,8 @@ def finish (prop : String) (d : Judged) (s : Bool × String × String) : Verdict
     why := if !ok then why else if twins then "" else d.whyAgree,
     sig := if !ok then sig else (match d.guard with | some g => s!"guard:{g}" | none => ""),
     cover := d.cover, excluded := d.guard.isSome && !twins,
-    nontrivial := (d.chain.filter fun (_, r) => r.adjust.isSome || !r.updates.isEmpty).length ≥ 2 }
+    nontrivial := (d.chain.filter fun (_, r) => r.adjust.isSome || !r.updates.isEmpty).length ≥ 2 ||
+      (match d.binfo with | some b => b.ncalls ≥ 2 | none => false) }
 
 def judge (prop : String) (j : Json) : Except String Verdict := do
   let d ← judgeCommon j
@@ -345,6 +358,15 @@ def judge (prop : String) (j : Json) : Except String Verdict := do
     | "C04" => specC04 d
     | "C05" => specC05 d
     | _ => (true, "", "")
+  -- program-level predicates of the builder stream, evaluated on the observation
+  let s := match d.binfo with
+    | some b =>
+      if s.1 && (prop == "C01" || prop == "C02" || prop == "C05") then
+        match Drv.Builder.progSpec d.kind b.plugs d.obs with
+        | some (why, sig) => (false, why, s!"{prop}:{sig}")
+        | none => s
+      else s
+    | none => s
   pure (finish prop d s)
 
 end Drv.Merge
